@@ -19,9 +19,13 @@ use crate::dialect::DialectOptions;
 //@fn decoder.rs CsvDecoder::decode (as driven by the reader)
 
 fn read_all(input: &str, read_size: usize, cap: usize) -> Result<Vec<(Option<String>, Option<i64>)>> {
+    read_all_h(input, read_size, cap, false)
+}
+
+fn read_all_h(input: &str, read_size: usize, cap: usize, has_header: bool) -> Result<Vec<(Option<String>, Option<i64>)>> {
     let file = AnyFile::from_file(MemoryFileHandle::from_bytes(&DefaultBufferManager, input)?);
     let mut reader = CsvReader::new(
-        CsvShape { has_header: false, num_columns: 2 },
+        CsvShape { has_header, num_columns: 2 },
         Projections::new([0, 1]),
         vec![0; read_size],
         CsvDecoder::new(DialectOptions::default()),
@@ -81,7 +85,26 @@ fn c03c17_csv_reader__rows_independent_of_read_size__nat() {
             }
         }
     }
-    assert!(cases > 300);
+    // files WITH a header: the header record is skipped exactly once, whatever the read size / batch capacity
+    let header_files: Vec<(&str, Vec<(Option<String>, Option<i64>)>)> = vec![
+        ("name,score\na,1\nb,2\nc,3", vec![(s("a"), Some(1)), (s("b"), Some(2)), (s("c"), Some(3))]),
+        ("h\u{e9},n\n\"x,y\",10\nz,20\nw,30\nv,40\n", vec![(s("x,y"), Some(10)), (s("z"), Some(20)), (s("w"), Some(30)), (s("v"), Some(40))]),
+    ];
+    for (input, want) in &header_files {
+        for read_size in 1..=input.len() + 1 {
+            for cap in [1usize, 2, 3, 16] {
+                match read_all_h(input, read_size, cap, true) {
+                    Ok(got) => assert!(
+                        &got == want,
+                        "CSV rows depend on the read size: file with header {input:?} read {read_size} bytes at a time (batch capacity {cap}) gives {got:?}, RFC-4180 records after the header are {want:?}"
+                    ),
+                    Err(e) => panic!("reading a valid CSV file with a header failed: file {input:?} read {read_size} bytes at a time (batch capacity {cap}): {e}"),
+                }
+                cases += 1;
+            }
+        }
+    }
+    assert!(cases > 500);
 }
 
 // C19 (bounded stand-in, native): ragged files -- every assignment of 1..=4 fields to each of 3 records (2 or 3 columns
